@@ -103,7 +103,12 @@ TSConfs == [inner2Emb |-> [Inner2 |-> [type |-> "object", properties |-> [X |-> 
 DescF(go, t, d) == Field(go, "", {}, t) @@ [desc |-> d]
 ODesc == {Struct("S", <<DescF("A", Prim("int8"), d), Field("B", "b", {"omitempty"}, Prim("string"))>>) : d \in {"the a", "", "k=v", "a=b c", "a b=c", " x=y"}}
          \cup {Struct("S", <<DescF("A", Inner, "inner one"), DescF("B", Slice(Prim("string")), "tags")>>),
-               Struct("S", <<DescF("A", Bad("func"), "k=v"), Field("B", "", {}, Prim("int8"))>>)}
+               Struct("S", <<DescF("A", Bad("func"), "k=v"), Field("B", "", {}, Prim("int8"))>>),
+               \* a described field of an unsupported type: dropped under IgnoreInvalidTypes, an error otherwise
+               Struct("S", <<DescF("A", Bad("func"), "the a"), Field("B", "", {}, Prim("int8"))>>),
+               Struct("S", <<Field("B", "", {}, Prim("int8")), DescF("M", Bad("mapint"), "by code"), DescF("C", Slice(Bad("chan")), "chans")>>),
+               Slice(Struct("S", <<DescF("A", Ptr(Bad("complex")), "z"), DescF("B", Prim("string"), "kept")>>)),
+               Struct("S", <<DescF("W", Struct("Wrap", <<DescF("F", Bad("func"), "cb"), Field("V", "", {}, Prim("int8"))>>), "wrapped")>>)}
 OCases == {[t |-> t, ign |-> ign, tsn |-> "none"] : t \in ODesc, ign \in BOOLEAN} \cup {[t |-> t, ign |-> ign, tsn |-> "none"] : t \in UNION {OBad, ORec, OMany}, ign \in BOOLEAN}
           \cup {[t |-> t, ign |-> FALSE, tsn |-> c] : t \in OTS, c \in {"innerTyped", "innerUntyped", "innerTypes", "embOverride"}}
           \cup {[t |-> t, ign |-> FALSE, tsn |-> c] : t \in OTS2, c \in {"inner2Emb", "none"}}
